@@ -1,5 +1,7 @@
 import PelModel.Cli
+import PelModel.Main
 import PelProofs.Cli
+import PelProofs.Main
 /-
   C11 — Only delete options remove files, and only the files they name.
   In the model a directory is the list of its top-level regular files; the read-only modes (`listMode`, `allMode`,
@@ -101,5 +103,118 @@ theorem json_removes_only (env : Env) (o : CliOpts) (clean : Bool) (d : Dir) :
       exact ⟨f, hfd, hc, eid, j, fullOf_some hfo⟩
     | skip => simp [hfo] at hc
     | diag => simp [hfo] at hc
+
+/-! ### `main()`: which options can make it reach a removing function (model: PelModel/Main.lean) -/
+
+/-- ★ the executable priority chain `dispatch` (the `if` cascade of `main()`, in source order) is exactly the declarative chain `Chain`
+    ("the first truthy mode option wins; every earlier one was falsy"), and `Chain` admits no other result -/
+theorem main_dispatch_is_chain (fs : FsView) (a : Args) :
+    Chain fs a (dispatch fs a).1 (dispatch fs a).2.sel.lookup ∧
+    ∀ act lk, Chain fs a act lk → act = (dispatch fs a).1 ∧ lk = (dispatch fs a).2.sel.lookup :=
+  ⟨dispatch_chain fs a, fun _ _ h => ⟨(chain_unique h).1.symm, (chain_unique h).2.symm⟩⟩
+
+/-- ★ `main` reaches `deletePELFromPELId(dir, e)` only when `-d e` was given with a non-empty `e`, `deleteAllPELs` only when `-D` was
+    given, and passes `delete_after_parsing = True` / calls its own `os.remove` (the `-f` branch) only when `--clean` was given —
+    for every file-system answer and every parsed argument vector -/
+theorem main_removes_only_on_request (fs : FsView) (a : Args) :
+    (∀ d e, (dispatch fs a).1 = .deleteMode d e → a.delete = some e ∧ e ≠ []) ∧
+    (∀ d, (dispatch fs a).1 = .deleteAllMode d → a.deleteAll = true) ∧
+    (∀ p, (dispatch fs a).1 = .fileMode p true → a.clean = true) ∧
+    (∀ d o, (dispatch fs a).1 = .jsonMode d o true → a.clean = true) := by
+  have h := dispatch_chain fs a
+  generalize (dispatch fs a).1 = act at h
+  generalize (dispatch fs a).2.sel.lookup = lk at h
+  refine ⟨?_, ?_, ?_, ?_⟩
+  · intro d e he; subst he; cases h; rename_i hde; exact tv_some hde
+  · intro d he; subst he; cases h; assumption
+  · intro p he; cases h <;> simp_all
+  · intro d o he; cases h <;> simp_all
+
+/-- every other invocation is read-only at the level of `main`: without (truthy) `-d`, without `-D` and without `--clean`, no removing
+    function is reached and no callee is told to delete -/
+theorem main_readonly_without_delete_clean (fs : FsView) (a : Args)
+    (hd : truthy a.delete = false) (hD : a.deleteAll = false) (hc : a.clean = false) :
+    (∀ d e, (dispatch fs a).1 ≠ .deleteMode d e) ∧ (∀ d, (dispatch fs a).1 ≠ .deleteAllMode d) ∧
+    (∀ p, (dispatch fs a).1 ≠ .fileMode p true) ∧ (∀ d o, (dispatch fs a).1 ≠ .jsonMode d o true) ∧
+    (dispatch fs a).1.mayRemove = false := by
+  rw [truthy_eq_false] at hd
+  have h := dispatch_chain fs a
+  generalize (dispatch fs a).1 = act at h
+  generalize (dispatch fs a).2.sel.lookup = lk at h
+  cases h <;> simp_all [Action.mayRemove]
+
+/-- ★ the directory: `deletePELFromPELId` / `deleteAllPELs` — and every other directory mode — are called with exactly the `-p` value, and
+    only after `os.path.isdir` said it is a directory -/
+theorem main_delete_directory (fs : FsView) (a : Args) :
+    (∀ d e, (dispatch fs a).1 = .deleteMode d e → a.path = some d ∧ fs.isDir d = true) ∧
+    (∀ d, (dispatch fs a).1 = .deleteAllMode d → a.path = some d ∧ fs.isDir d = true) ∧
+    (∀ d, (dispatch fs a).1.dir? = some d → a.path = some d ∧ d ≠ [] ∧ fs.isDir d = true) := by
+  have key : ∀ d, (dispatch fs a).1.dir? = some d → a.path = some d ∧ d ≠ [] ∧ fs.isDir d = true := by
+    intro d
+    have h := dispatch_chain fs a
+    generalize (dispatch fs a).1 = act at h
+    generalize (dispatch fs a).2.sel.lookup = lk at h
+    intro hd
+    cases h <;> simp only [Action.dir?, Option.some.injEq, reduceCtorEq] at hd <;> subst hd <;>
+      exact ⟨(tv_some ‹tv a.path = some _›).1, (tv_some ‹tv a.path = some _›).2, ‹_›⟩
+  refine ⟨fun d e h => ?_, fun d h => ?_, key⟩
+  · have := key d (by rw [h]; rfl); exact ⟨this.1, this.2.2⟩
+  · have := key d (by rw [h]; rfl); exact ⟨this.1, this.2.2⟩
+
+/-- ★ one action per invocation, in priority order: if any of `-f -j -i --bmc-id --plid --src --src-exclude -l -n -a` is given (truthily),
+    a simultaneous `-d` / `-D` is not executed; and `-d` takes precedence over `-D` -/
+theorem main_lower_priority_delete (fs : FsView) (a : Args)
+    (h : truthy a.file = true ∨ a.json = true ∨ truthy a.pelID = true ∨ truthy a.bmcID = true ∨ truthy a.plid = true ∨
+         truthy a.src = true ∨ truthy a.srcExclude = true ∨ a.list = true ∨ a.count = true ∨ a.all = true) :
+    (∀ d e, (dispatch fs a).1 ≠ .deleteMode d e) ∧ (∀ d, (dispatch fs a).1 ≠ .deleteAllMode d) := by
+  simp only [truthy_eq_true] at h
+  have hc := dispatch_chain fs a
+  generalize (dispatch fs a).1 = act at hc
+  generalize (dispatch fs a).2.sel.lookup = lk at hc
+  cases hc <;> simp_all
+
+theorem main_delete_before_delete_all (fs : FsView) (a : Args) (h : truthy a.delete = true) :
+    ∀ d, (dispatch fs a).1 ≠ .deleteAllMode d := by
+  simp only [truthy_eq_true] at h
+  have hc := dispatch_chain fs a
+  generalize (dispatch fs a).1 = act at hc
+  generalize (dispatch fs a).2.sel.lookup = lk at hc
+  cases hc <;> simp_all
+
+/-- every action other than one of the four `sys.exit("message")` sites makes `main` itself end with status 0 -/
+theorem dispatch_total_exit0 (fs : FsView) (a : Args) :
+    (∀ m, (dispatch fs a).1 ≠ .exitMsg m) → mainExit (dispatch fs a).1 = 0 := by
+  intro h
+  cases hact : (dispatch fs a).1 with
+  | exitMsg m => exact absurd hact (h m)
+  | _ => rfl
+
+theorem exit_status_of_message (m : ExitSite) : mainExit (.exitMsg m) = 1 ∧ mainStderr (.exitMsg m) = some (exitText m) := ⟨rfl, rfl⟩
+
+/-! Non-vacuity: concrete command lines for each statement above (`/pels` and `/out` are directories, `/x.txt` is a file). -/
+def fsDemo : FsView := { isDir := fun p => p == s "/pels" || p == s "/out", isFile := fun p => p == s "/x.txt" }
+
+-- `-p /pels -d 50000001 -D`: the single delete runs, not delete-all
+example : dispatch fsDemo { path := some (s "/pels"), delete := some (s "50000001"), deleteAll := true } =
+    (.deleteMode (s "/pels") (s "50000001"), {}) := by decide
+-- `-p /pels -d "" -D`: an empty id counts as not given, so delete-all runs
+example : dispatch fsDemo { path := some (s "/pels"), delete := some [], deleteAll := true } = (.deleteAllMode (s "/pels"), {}) := by decide
+-- `-p /pels -l -d 50000001 -D`: listing wins, nothing is deleted
+example : dispatch fsDemo { path := some (s "/pels"), list := true, deleteAll := true, delete := some (s "50000001") } =
+    (.listMode (s "/pels"), {}) := by decide
+-- `-p /nope -D`: not a directory, nothing is called
+example : (dispatch fsDemo { path := some (s "/nope"), deleteAll := true }).1 = .exitMsg (.notDir (s "/nope")) := by decide
+-- `-f /pels/a --clean -D` (no -p needed): file mode, with the clean flag
+example : (dispatch fsDemo { file := some (s "/pels/a"), clean := true, deleteAll := true }).1 = .fileMode (s "/pels/a") true := by decide
+example : (dispatch fsDemo { path := some (s "/pels"), json := true, outputDir := some (s "/out"), clean := true }).1 =
+    .jsonMode (s "/pels") (s "/out") true := by decide
+example : (dispatch fsDemo { path := some (s "/pels"), json := true, outputDir := some (s "/none") }).1 =
+    .exitMsg (.noOutputDir (s "/none")) := by decide
+-- `--src-exclude /missing`: the id is stored in the Config before the file test fails
+example : dispatch fsDemo { path := some (s "/pels"), srcExclude := some (s "/missing") } =
+    (.exitMsg (.noExcludeFile (s "/missing")), { sel := { lookup := true } }) := by decide
+example : (dispatch fsDemo { deleteAll := true }).1 = .exitMsg .noPath := by decide
+example : (dispatch fsDemo { path := some (s "/pels") }).1 = .nothing ∧ mainExit .nothing = 0 := by decide
+example : mainExit (dispatch fsDemo { deleteAll := true }).1 = 1 := by decide
 
 end Pel.C11
